@@ -2672,7 +2672,11 @@ pub fn std() -> impl Function {
             ((sum_2 - sum * sum / count) / (count - 1.)).sqrt().into()
         },
         |(intervals, _size)| match (intervals.min(), intervals.max()) {
-            (Some(&min), Some(&max)) => Ok(data_type::Float::from_interval(0., (max - min) / 2.)),
+            // sample standard deviation of values in [min, max]: at most (max - min) / sqrt(2) (two values at the bounds)
+            (Some(&min), Some(&max)) => Ok(data_type::Float::from_interval(
+                0.,
+                (max - min) / 2f64.sqrt(),
+            )),
             _ => Ok(data_type::Float::from_min(0.)),
         },
     )
@@ -2698,7 +2702,11 @@ pub fn std_distinct() -> impl Function {
             ((sum_2 - sum * sum / count) / (count - 1.)).sqrt().into()
         },
         |(intervals, _size)| match (intervals.min(), intervals.max()) {
-            (Some(&min), Some(&max)) => Ok(data_type::Float::from_interval(0., (max - min) / 2.)),
+            // sample standard deviation of values in [min, max]: at most (max - min) / sqrt(2) (two values at the bounds)
+            (Some(&min), Some(&max)) => Ok(data_type::Float::from_interval(
+                0.,
+                (max - min) / 2f64.sqrt(),
+            )),
             _ => Ok(data_type::Float::from_min(0.)),
         },
     )
@@ -2724,9 +2732,10 @@ pub fn var() -> impl Function {
             ((sum_2 - sum * sum / count) / (count - 1.)).into()
         },
         |(intervals, _size)| match (intervals.min(), intervals.max()) {
+            // sample variance of values in [min, max]: at most (max - min)^2 / 2 (two values at the bounds)
             (Some(&min), Some(&max)) => Ok(data_type::Float::from_interval(
                 0.,
-                ((max - min) / 2.).powi(2),
+                (max - min).powi(2) / 2.,
             )),
             _ => Ok(data_type::Float::from_min(0.)),
         },
@@ -2753,9 +2762,10 @@ pub fn var_distinct() -> impl Function {
             ((sum_2 - sum * sum / count) / (count - 1.)).into()
         },
         |(intervals, _size)| match (intervals.min(), intervals.max()) {
+            // sample variance of values in [min, max]: at most (max - min)^2 / 2 (two values at the bounds)
             (Some(&min), Some(&max)) => Ok(data_type::Float::from_interval(
                 0.,
-                ((max - min) / 2.).powi(2),
+                (max - min).powi(2) / 2.,
             )),
             _ => Ok(data_type::Float::from_min(0.)),
         },
